@@ -161,6 +161,8 @@ func cliLineText(l line, idx int) string {
 		return "* BYE busy"
 	case "TOK":
 		return cliTag + " OK Begin TLS negotiation now"
+	case "TOKC":
+		return cliTag + " OK [CAPABILITY " + evilCaps + "] Begin TLS negotiation now"
 	case "CAPS":
 		return "* CAPABILITY " + evilCaps
 	case "OKCAPS":
@@ -680,7 +682,7 @@ func suffixLen(cs *caseT, texts []string) int {
 		if seen {
 			n += len(texts[i])
 		}
-		if l.C == "STARTTLS" || l.C == "TOK" {
+		if l.C == "STARTTLS" || l.C == "TOK" || l.C == "TOKC" {
 			seen = true
 		}
 	}
@@ -937,7 +939,7 @@ func runClient(cs *caseT) *result {
 func onlyBenignPre(cs *caseT) bool {
 	for _, l := range cs.Stream[1:] {
 		switch l.C {
-		case "TOK":
+		case "TOK", "TOKC":
 			return true
 		case "EXISTS", "EXPUNGE", "CAPS", "OKTEXT":
 		default:
@@ -1306,7 +1308,7 @@ func randomCase(rng *rand.Rand) *caseT {
 		for i := rng.Intn(3); i > 0; i-- {
 			cs.Stream = append(cs.Stream, line{Tag: "*", C: cliRandPre[rng.Intn(len(cliRandPre))]})
 		}
-		cs.Stream = append(cs.Stream, line{Tag: "T", C: "TOK"})
+		cs.Stream = append(cs.Stream, line{Tag: "T", C: []string{"TOK", "TOK", "TOKC"}[rng.Intn(3)]})
 		for i := rng.Intn(4); i > 0; i-- {
 			cs.Stream = append(cs.Stream, line{Tag: "*", C: cliRandSuffix[rng.Intn(len(cliRandSuffix))]})
 		}
